@@ -59,7 +59,7 @@ Proof.
     + intros i Hi. rewrite I2 by lia. rewrite bit_set_set_bit by (auto; lia).
       cbn [existsb]. rewrite (Z.eqb_sym i). destruct (m - base =? i), (bit_set ws0 i), (existsb _ t); reflexivity.
     + destruct (Z.gtb_spec (m - base + 1) nb0); lia.
-    + intros x [->|Hx]; [|apply I4; exact Hx]. destruct (Z.gtb_spec (m - base + 1) nb0); lia.
+    + intros x [Ex|Hx]; [subst x|apply I4; exact Hx]. destruct (Z.gtb_spec (m - base + 1) nb0); lia.
     + destruct I5 as [E|(x & Hx & E)].
       * destruct (Z.gtb_spec (m - base + 1) nb0).
         -- right. exists m. split; [left; reflexivity|lia].
@@ -169,6 +169,7 @@ Proof.
   { assert (fst r <= nb).
     { destruct B5 as [E|(m & Hm & E)]; [lia|]. apply In_set_list in Hm as (j & Hj & _ & ->). lia. }
     destruct T as [->|T]; [lia|].
+    destruct (Z.eq_dec nb 0) as [->|Hnz]; [lia|].
     assert (In (base + (nb - 1)) (set_list base ws 0 (Z.to_nat nb))).
     { apply In_set_list. exists (nb - 1). repeat split; auto; lia. }
     apply B4 in H0. lia. }
@@ -180,9 +181,9 @@ Definition ssorted (l : list Z) : Prop := StronglySorted Z.lt l.
 
 Lemma In_insert_sorted : forall x y l, In x (insert_sorted y l) <-> x = y \/ In x l.
 Proof.
-  intros x y l; induction l as [|z t IH]; cbn [insert_sorted In]; [tauto|].
-  destruct (Z.ltb_spec y z); cbn [In]; [tauto|].
-  destruct (Z.eqb_spec y z); cbn [In]; [subst; tauto|]. rewrite IH. tauto.
+  intros x y l; induction l as [|z t IH]; cbn [insert_sorted In]; [intuition congruence|].
+  destruct (Z.ltb_spec y z); cbn [In]; [intuition congruence|].
+  destruct (Z.eqb_spec y z); cbn [In]; [subst; intuition congruence|]. rewrite IH. intuition congruence.
 Qed.
 Lemma insert_sorted_sorted : forall y l, ssorted l -> ssorted (insert_sorted y l).
 Proof.
@@ -198,7 +199,7 @@ Proof. induction l; cbn; [constructor|apply insert_sorted_sorted; exact IHl]. Qe
 Lemma In_canon_members : forall x l, In x (canon_members l) <-> In x l.
 Proof.
   intros x l; induction l as [|y t IH]; cbn [canon_members fold_right In]; [tauto|].
-  fold (canon_members t). rewrite In_insert_sorted, IH. intuition.
+  fold (canon_members t). rewrite In_insert_sorted, IH. intuition congruence.
 Qed.
 
 Lemma ssorted_ext : forall a b, ssorted a -> ssorted b -> (forall x, In x a <-> In x b) -> a = b.
